@@ -21,6 +21,7 @@ func init() {
 			var ms mon.Str
 			json.Unmarshal(raw, &ms)
 			s := string(ms)
+			mon.StepBudget = 500_000_000
 			Check(s, r)
 		},
 		Rule: "inputs: for each program of a generated corpus every single-token corruption (delete each token, insert each of ~110 vocabulary tokens at each position, duplicate, transpose neighbours, truncate at each position), " +
@@ -32,6 +33,7 @@ func init() {
 }
 
 func generate(w *mon.W) {
+	mon.StepBudget = 500_000_000 // deep nestings legitimately need tens of millions of parser steps
 	rng := gen.RNG(w.Seed, "c08")
 	g := &gen.Syn{Rng: rng}
 	var corpus []string
@@ -55,6 +57,18 @@ func generate(w *mon.W) {
 		for _, n := range gen.WideSizes {
 			do(Print(gen.Wide(kind, n), Layout{Mode: 1}).Src)
 		}
+	}
+	// deep nestings (the tree must still account for every token)
+	for _, depth := range []int{100, 500, 1000, 1999, 2000, 2001, 2500} {
+		if depth > 1000 && w.Quick() && depth != 2001 {
+			continue
+		}
+		do("T | where " + strings.Repeat("f(", depth) + "x" + strings.Repeat(")", depth))
+		do("T | where " + strings.Repeat("(", depth-1) + "g(x)" + strings.Repeat(")", depth-1))
+		do("T | where " + strings.Repeat("(", depth) + "x" + strings.Repeat(")", depth))
+		do("T | where " + strings.Repeat("a[", depth) + "1" + strings.Repeat("]", depth))
+		do("T | where " + strings.Repeat("a in (", depth) + "1" + strings.Repeat(")", depth))
+		do("T | where " + strings.Repeat("not(", depth) + "b" + strings.Repeat(")", depth) + " and f(y)")
 	}
 	for ci, src := range corpus {
 		if w.Stopped() {
